@@ -1097,9 +1097,7 @@ func (w *fdWalker) decisionTable0(list []ast.Stmt, i int) int {
 			outs++
 		}
 	}
-	if outs == 0 {
-		return 0
-	}
+	_ = outs // (a run that writes nothing anybody reads is the table that changes nothing)
 	for _, x := range run {
 		w.facts.killWritten(w, x)
 	}
@@ -1133,6 +1131,9 @@ func (t *fdTable) signature(disp func(c dtCell) string) string {
 		if t.written[k] {
 			outs = append(outs, disp(t.cells[k]))
 		}
+	}
+	if len(outs) == 0 {
+		outs = []string{"(nothing)"}
 	}
 	return strings.Join(outs, ", ") + " ← f(" + strings.Join(ins, ", ") + ")"
 }
